@@ -13,6 +13,7 @@ REPLAY_DIR = os.path.join(VERIF, "replays")
 KNOWN_FILE = os.path.join(VERIF, "known_findings.json")
 MAX_SAMPLES_PER_CELL = 3
 MAX_FP_PER_CELL = 200000
+CURRENT = {}      # set by the worker: property and cell being run
 
 
 class Violation(Exception):
@@ -85,6 +86,18 @@ class Stats:
         self.known[kid] = self.known.get(kid, 0) + 1
         if kid not in self.known_samples:
             self.known_samples[kid] = {"case": compact(case), "failure": f}
+        if os.environ.get("VP_HARVEST") and CURRENT.get("prop") and not CURRENT["cell"].get("replay"):
+            # maintenance only (tools/harvest_known.sh): keep one witness per
+            # open finding in the corpus, so that every run re-evaluates it
+            d = os.path.join(VERIF, "corpus", CURRENT["prop"])
+            path = os.path.join(d, "known-%s.json" % kid)
+            if not os.path.exists(path):
+                os.makedirs(d, exist_ok=True)
+                cell = {k: v for k, v in CURRENT["cell"].items() if k != "cost"}
+                with open(path + ".%d" % os.getpid(), "w") as fh:
+                    json.dump({"property": CURRENT["prop"], "cell": cell, "case": case,
+                               "failure": f, "known": kid}, fh, default=dump_case, indent=1)
+                os.replace(path + ".%d" % os.getpid(), path)
 
     def result(self):
         return {"evaluations": self.evaluations,
